@@ -1,8 +1,56 @@
-GROUP = dict(crate='feather-build-rs', file='src/version_graph.rs', harness_file='vgraph.rs', cargo_target=['--bin', 'feather-build-rs'], functions=[], trusted=[], tests=[
-    dict(name='version_is_root_plus_path_diffs', props=['C05'], text='draft', bound='draft', timeout=900, tier='quick'),
-    dict(name='every_path_of_a_consistent_graph_gives_the_version', props=['C05'], text='draft', bound='draft', timeout=900, tier='quick'),
-    dict(name='names_and_creation_order_do_not_matter', props=['C05'], text='draft', bound='draft', timeout=900, tier='quick'),
-    dict(name='ambiguous_paths_resolve_to_one_of_the_paths', props=['C05'], text='draft', bound='draft', timeout=900, tier='quick'),
-    dict(name='malformed_directories_are_refused', props=['C05'], text='draft', bound='draft', timeout=900, tier='quick'),
-    dict(name='canary_must_fail', props=[], canary=True, text='must fail', bound=''),
-])
+"""Enumeration group `vgraph`: bounded stand-in checks for the version graph (harness kx/enum/vgraph.rs, property C05).
+
+GROUP has exactly the shape of an entry of kx.groups.ENUM_GROUPS (picked up by kx.groups._load_group_files as ENUM_GROUPS['vgraph']).
+
+Install: `VersionGraph`, `Split` and `VersionEntry` are pub(crate) items of the module `version_graph` of the root package feather-build-rs, which is a binary
+crate without a library (/repo/Cargo.toml: [package] name = "feather-build-rs", sources src/main.rs + src/*.rs).  The harness reaches them, `Path` and `Mappings`
+through `use super::*`, so it is appended as `#[cfg(test)] mod verif_enum_vgraph` to src/version_graph.rs and selected with `-p feather-build-rs --bin feather-build-rs`
+(test path version_graph::verif_enum_vgraph::<test>; the filter `verif_enum_vgraph::` of kx.enumrun matches it).
+
+Universes (all counts are checked by the `cases=` numbers the tests print):
+
+States: 8 mapping states over the classes a, b, a$n, a$n$k (namespaces official, named).  Between them: class added / removed (b, a$n, a$n$k), class renamed (a, a$n),
+   field added / removed / renamed, method renamed, parameter added / removed, comment added / removed / edited on a class, a field, a method, a parameter.
+Directories: file `<root>.tiny` with the state of the root, one `<parent>#<child>.tinydiff` per edge holding the model-level diff from the state of the parent to the
+   state of the child, written by the harness as text in two spellings (PLAIN: nested classes with full names in the root file, diffs list only what changed;
+   OTHER: own names in the root file, diffs also list unchanged entries, members of removed classes and explicit empty columns).
+Graphs: the 8 rooted trees with <= 4 nodes; the 16 DAGs on 3 or 4 nodes with edges i -> j for i < j that are not trees (every node reachable, some on several paths).
+Expected mappings of a version: root model, model-level diffs along a path applied in order (every path is followed; they must agree), names of nested classes extended.
+Every case creates a fresh directory under std::env::temp_dir(), runs the real VersionGraph::resolve, versions, children, get and apply_diffs and removes the directory.
+"""
+
+GROUP = dict(
+    crate='feather-build-rs', file='src/version_graph.rs', harness_file='vgraph.rs', cargo_target=['--bin', 'feather-build-rs'],
+    functions=['src/version_graph.rs::VersionGraph::resolve', 'VersionGraph::resolve::add_node', 'VersionGraph::versions', 'VersionGraph::children', 'VersionGraph::get',
+               'VersionGraph::apply_diffs', 'VersionEntry::as_str',
+               'quill::tiny_v2::read_file', 'quill::tiny_v2_diff::read_file', 'MappingsDiff::apply_to', 'Mappings::contract_inner_class_names', 'Mappings::extend_inner_class_names (as called by the version graph)'],
+    trusted=['version graph harness (kx/enum/vgraph.rs): own model of a mapping set (a nested class carries its own simple name; the shown name is shown(outer) + $ + own), own model-level diff '
+             '(complete description of the change between two states) and model-level application (additions appear, removals disappear with everything below, edits replace, a mismatch is an error), '
+             'own writers of Tiny v2 and tinydiff text; the extractor reported mappings -> model walks the pub fields and checks every map key against its entry.  The harness asserts that the '
+             'model-level diffs along every path lead to the state of the version.  The order in which the file system lists a directory cannot be set directly: files are created in every order and the '
+             'listing orders that actually occurred are counted (INFO lines; on this file system all 2 / 6 / 24 orders of 2 / 3 / 4 files occurred).  Directories live under std::env::temp_dir().'],
+    tests=[
+        dict(name='version_is_root_plus_path_diffs', props=['C05'], tier='quick', timeout=900,
+             text='For every tree-shaped directory, versions() and children() report exactly the versions and edges of the directory, every version is found by get under its name, the mappings apply_diffs reports for it '
+                  'are exactly the root mappings with the diffs along the path root -> version applied in order and the names of nested classes extended, and an unknown version name is refused.',
+             bound='the 8 rooted trees with <= 4 nodes x every assignment of the 8 states to the nodes (8 + 64 + 2*512 + 4*4096 = 17480) x 2 spellings of the files; plain version names 1.0 .. 1.3; 34960 cases'),
+        dict(name='every_path_of_a_consistent_graph_gives_the_version', props=['C05'], tier='quick', timeout=900,
+             text='The same for graphs in which versions are reachable on several paths and every diff is the change between the states of its two ends: whichever path is taken, the reported mappings are the state of the version.',
+             bound='the 16 non-tree DAGs on 3 or 4 nodes (triangle; diamond, chains with shortcuts, ... up to the complete one) x every assignment of 6 states {0, 2, 4, 5, 6, 7} to the nodes (216 + 15*1296); 19656 cases'),
+        dict(name='names_and_creation_order_do_not_matter', props=['C05'], tier='thorough', timeout=1200,
+             text='The answers do not depend on the order in which the files were created / are listed nor on the version names: with any node named plainly or as client~server, every plain version is reachable under its '
+                  'name with Split::None, every client~server version under either half with Split::First / Split::Second, and versions, edges and mappings are as for version_is_root_plus_path_diffs.',
+             bound='the 8 trees with states {6, 1, 7, 4} x every subset of nodes given a client~server name (2^n) x every assignment of the version numbers to the nodes (n!) x every creation order of the files (n!) = 37458 directories; '
+                   'the 16 DAGs x 4 split masks x n! numberings x 2 creation orders (as listed, reversed), other spelling = 2928; 40386 cases'),
+        dict(name='ambiguous_paths_resolve_to_one_of_the_paths', props=['C05'], tier='quick', timeout=900,
+             text='When the last version has several parents and the diffs into it do NOT agree (there is no single "the path"), the directory is refused or the reported mappings are root + the diffs along ONE path root -> version: '
+                  'never a mixture, never a diff from elsewhere, no panic.',
+             bound='the non-tree DAGs on 3 or 4 nodes whose only version with several parents is the last one x every assignment of 4 states {0, 3, 5, 7} to the other versions x every assignment of these 4 states to the '
+                   'edges into the last version, each under 3 numberings of the versions; 43776 cases (37440 with paths that really differ)'),
+        dict(name='malformed_directories_are_refused', props=['C05'], tier='quick', timeout=600,
+             text='Malformed directories are reported as errors: no root and several roots are refused by resolve; for a cycle, an unreachable version or an unknown name either resolve refuses or get / apply_diffs refuses '
+                  'exactly the affected versions while every other version is refused or reported exactly; never a panic, in every creation order of the files.',
+             bound='24 directory shapes (4 without root, 5 with two or three roots, 8 cycles incl. self loops, through the root and apart from it, 6 with unreachable versions / a parent of the root, 1 well-formed chain asked for 9 '
+                   'unknown names such as "", "1", "1.0.tiny", "1.0#1.1", "~", "#") x 3 naming schemes (plain; client~server names; mixed, reversed numbers) x every creation order of the files; 1296 cases'),
+        dict(name='canary_must_fail', props=[], canary=True, text='must fail', bound=''),
+    ])
